@@ -30,7 +30,9 @@ EXPLANATION = (
   "pick_* upper-cases the avoid set first; (R3) pick_col_ident_list adds each pick, upper-cased, "
   "to the avoid set before the next pick and returns exactly the picks; (R4) the call sites in "
   "the engine pass avoid sets that contain 'id', the table's and its sibling summary tables' "
-  "columns, and record each pick of a batch before the next one. The interpreter follows if/else in "
+  "columns, and record each pick of a batch before the next one; (R5) nothing is added to the batch of a "
+  "new table (the picked ids, the column list they are zipped with) after pick_col_ident_list "
+  "ran. The interpreter follows if/else in "
   "either polarity, and/or conditions, break/continue and early returns; guards of the "
   "returned candidates and the call-site clauses are read from the CFG and through the locals "
   "that name an operand. Assumption: the keyword list is "
@@ -773,6 +775,7 @@ def check(run, repo, tier):
   r2_avoid(run, w, ip)
   r3_batch(run, w, ip)
   r4_call_sites(run, w)
+  r5_whole_batch(run, w)
   run.extra["regexes_interpreted"] = sorted({"%s: %s" % u for u in ip.regex_uses})
 
 
@@ -1267,6 +1270,62 @@ def r4_call_sites(run, w):
 KEEP = ("_pick_col_name", "_adjust_one_column_update", "_prepare_formula_renames",
         "_do_doc_action", "_do_extra_doc_action", "_bulk_action_iter")
 
+def r5_whole_batch(run, w):
+  """The ids of a new table are unique only among the names the picker saw: nothing may join
+  the batch (the picked id list, or the column list it is zipped with) after the pick."""
+  R5 = run.rule("C21-R5", "every column id of a new table went through the picker together "
+                "with the others: the batch is not extended after pick_col_ident_list", floor=1)
+  n_sites = 0
+  for fi in w.repo.all_functions():
+    if fi.module.name == M:
+      continue
+    fn0 = w.fn_of(fi)
+    if not any(endswith(nm, "identifiers.pick_col_ident_list") for (nd, c, nm) in fn0.calls()):
+      continue
+    fn = H.xfn(w, fi.qualname, keep=KEEP) if fi.parent is None else fn0
+    v = H.View(fn)
+    cfg = fn.cfg
+    for (nd, c, nm) in fn.calls():
+      if not endswith(nm, "identifiers.pick_col_ident_list"):
+        continue
+      n_sites += 1
+      st = nd.stmt
+      batch = set()
+      if isinstance(st, ast.Assign) and st.value is c:
+        batch |= {t.id for t in st.targets if isinstance(t, ast.Name)}
+      # the list the requested ids were read from (zipped with the picked ids later)
+      a0 = v.arg(c, 0)
+      try:
+        coll = v.collection(a0) if a0 is not None else None
+      except AnalysisError:
+        coll = None
+      if coll is not None:
+        src = v.alias_root(coll.iter, at=nd.id)
+        if isinstance(src, ast.Name):
+          batch.add(src.id)
+      after = cfg.reach_after({nd.id})
+      grows = []
+      for (m, c2, nm2) in fn.calls():
+        f = c2.func
+        if m.id in after and isinstance(f, ast.Attribute) and \
+            f.attr in ("insert", "append", "extend") and \
+            isinstance(v.alias_root(f.value), ast.Name) and v.alias_root(f.value).id in batch:
+          grows.append(c2)
+      for m in cfg.nodes:
+        s2 = m.stmt
+        if m.id in after and m.kind == "stmt" and isinstance(s2, ast.AugAssign) and \
+            isinstance(s2.target, ast.Name) and s2.target.id in batch:
+          grows.append(s2)
+      run.ob(R5, fi.qualname, "nothing joins %s after %s" % (sorted(batch), short(c, 60)),
+             "an id added to the batch afterwards (e.g. the automatic manualSort column) was "
+             "neither picked with the others nor avoided by them, so a requested name that "
+             "sanitises to it collides", not grows,
+             witness=short(grows[0]) if grows else None, fi=fi,
+             node=grows[0] if grows else c)
+  if n_sites < 1:
+    raise AnalysisError("no call site of pick_col_ident_list found")
+
+
 I = "sandbox/grist/identifiers.py"
 U = "sandbox/grist/useractions.py"
 VARIANTS = [
@@ -1307,6 +1366,9 @@ VARIANTS = [
    "C21-R3"),
   ("batch-returns-requested-names", I, "    result.append(ident)\n  return result",
    "    result.append(ident)\n  return ident_list", "C21-R3"),
+  ("seeded-manualsort-added-after-the-pick", U,
+   "    # Add a manualSort column.\n    if manual_sort:\n      columns.insert(0, column.MANUAL_SORT_COL_INFO.copy())\n\n    # If needed, transform table_id into a valid identifier, and add a suffix to make it unique.\n    table_title = table_id\n    table_id = identifiers.pick_table_ident(table_id, avoid=self._engine.tables.keys())\n    if not table_title:\n      table_title = table_id\n    # Sanitize and de-duplicate column identifiers.\n    col_ids = [c['id'] for c in columns]\n    col_ids = identifiers.pick_col_ident_list(col_ids, avoid={'id'})\n",
+   "    # If needed, transform table_id into a valid identifier, and add a suffix to make it unique.\n    table_title = table_id\n    table_id = identifiers.pick_table_ident(table_id, avoid=self._engine.tables.keys())\n    if not table_title:\n      table_title = table_id\n    # Sanitize and de-duplicate column identifiers.\n    col_ids = [c['id'] for c in columns]\n    col_ids = identifiers.pick_col_ident_list(col_ids, avoid={'id'})\n\n    if manual_sort:\n      columns.insert(0, column.MANUAL_SORT_COL_INFO.copy())\n      col_ids.insert(0, column.MANUAL_SORT)\n", "C21-R5"),
   ("id-not-avoided-on-add-table", U, "identifiers.pick_col_ident_list(col_ids, avoid={'id'})",
    "identifiers.pick_col_ident_list(col_ids, avoid=set())", "C21-R4"),
   ("id-not-avoided-in-pick-col-name", U,
